@@ -425,6 +425,34 @@ theorem identities (a b : Angle) (ha : |a.deg| < 360) :
     have hr : |(to_positive a).deg| < 360 := by rw [abs_lt]; constructor <;> linarith
     exact (to_positive_range (to_positive a) hr).2.2.2.2 h0
 
+/-- `Angle.reduce_dms` on ANY three rationals returns canonical pieces: integer degrees in [0, 360),
+    integer minutes in [0, 60), seconds in [0, 60), sign -1 exactly when a piece is negative, and the
+    pieces keep the magnitude `|d| + |m|/60 + |s|/3600` up to whole turns (the absolute values are taken
+    before the fractional parts are pushed down). -/
+theorem reduce_dms_canonical (d m s : ℚ) :
+    ∃ (D M : ℤ) (S : ℚ), reduce_dms d m s = (D, M, S, if d < 0 ∨ m < 0 ∨ s < 0 then (-1 : ℚ) else 1) ∧
+      0 ≤ D ∧ D < 360 ∧ 0 ≤ M ∧ M < 60 ∧ 0 ≤ S ∧ S < 60 ∧
+      ∃ k : ℤ, |d| + |m| / 60 + |s| / 3600 = (D : ℚ) + (M : ℚ) / 60 + S / 3600 + 360 * k :=
+  reduce_dms_fields d m s
+
+example : reduce_dms 0 0.5 (-10) = (0, 0, 40, -1) ∧ reduce_dms 10.5 30.5 (-30.5) = (11, 1, 0.5, -1) ∧
+    reduce_dms 725 59 3600 = (6, 59, 0, 1) := by decide +kernel
+
+/-- The order comparisons are a trichotomy on the stored values, and `==` holds whenever the values
+    coincide and the tolerance is positive. -/
+theorem comparison_trichotomy (a : Angle) (b : Operand) :
+    (angle_lt a b = true ∨ angle_gt a b = true ∨ a.deg = b.val) ∧
+    ¬ (angle_lt a b = true ∧ angle_gt a b = true) ∧
+    (a.deg = b.val → 0 < a.tol → angle_eq a b = true) := by
+  obtain ⟨h1, _, h3, _, h5, _⟩ := comparisons a b
+  refine ⟨?_, ?_, fun he ht => ?_⟩
+  · rcases lt_trichotomy a.deg b.val with h | h | h
+    · exact Or.inl (h1.mpr h)
+    · exact Or.inr (Or.inr h)
+    · exact Or.inr (Or.inl (h3.mpr h))
+  · rintro ⟨ha, hb⟩; exact lt_asymm (h1.mp ha) (h3.mp hb)
+  · rw [h5, he, sub_self, abs_zero]; exact ht
+
 /-! ### Radians: input and view (over ℝ, `Pymeeus.GenR`) -/
 
 /-- The reduction theorem holds verbatim over the reals (the radians input needs it). -/
@@ -483,5 +511,28 @@ theorem pow_real (a : GenR.Angle) (y : ℝ) :
 
 /-- "the radian view is the value times pi/180". -/
 theorem rad_view (a : GenR.Angle) : GenR.angle_rad a = a.deg * (Real.pi / 180) := rfl
+
+/-- `rad()` after `to_positive()` is the radian value of the NEW value: for a negative Angle it is
+    `(a + 360) * pi / 180` (no stale cached view in the functional model). -/
+theorem rad_after_to_positive (a : GenR.Angle) (h1 : -360 < a.deg) (h2 : a.deg < 0) :
+    GenR.angle_rad (GenR.to_positive a) = (a.deg + 360) * (Real.pi / 180) := by
+  have hp : (GenR.to_positive a).deg = a.deg + 360 := by
+    unfold GenR.to_positive
+    have hp : PR.plt a.deg 0 = true := by simp [PR.plt, h2]
+    have hd : ¬ (PR.ple 360.0 (360.0 - PR.pabs a.deg) = true) := by
+      simp only [PR.ple, PR.pabs, decide_eq_true_eq, abs_of_neg h2]; norm_num; linarith
+    rw [if_pos hp]; simp only [hd]
+    simp only [PR.pabs, abs_of_neg h2]; norm_num; ring
+  show (GenR.to_positive a).deg * (Real.pi / 180) = _
+  rw [hp]
+
+/-- `**` with a negative base and a non-integer exponent has no real value: CPython returns a complex,
+    `Angle(complex)` raises TypeError. -/
+theorem pow_complex_rejected (a : GenR.Angle) (y : ℝ) (ha : a.deg < 0) (hy : y ≠ (⌊y⌋ : ℤ)) :
+    GenR.angle_pow a (.flt y) = .error .typeError := by
+  have hy0 : y ≠ 0 := by
+    intro h0; apply hy; rw [h0]; simp
+  unfold GenR.angle_pow PR.ppow
+  simp only [hy0, ha.ne, ha, hy, if_false, if_true]
 
 end Pymeeus.C03
